@@ -638,7 +638,7 @@ func (k *c13k) r1() {
 			}
 		}
 	}
-	c.Floor(rule+".stdout", nOut, 2, "os.Stdout references (both allow-listed defaults)")
+	c.Floor(rule+".stdout", nOut, 1, "os.Stdout references (two allow-listed defaults on the pinned tree)")
 	nSink := 0
 	for _, pr := range k.prints {
 		pkg := relPkg(fnPkgPath(pr.fn))
@@ -670,7 +670,7 @@ func (k *c13k) r1() {
 			}
 		}
 	}
-	c.Floor(rule+".prints", nSink, 17, "prints to the channel sink")
+	c.Floor(rule+".prints", nSink, 8, "prints to the channel sink (17 on the pinned tree)")
 	// (c) every use of the sink value is one of the prints above or WithOutput
 	for _, fn := range k.fns {
 		allInstrs(fn, func(in ssa.Instruction) {
@@ -682,8 +682,13 @@ func (k *c13k) r1() {
 			if q != "uci.Driver.output" && q != "search.Options.Output" {
 				return
 			}
+			seen := map[ssa.Value]bool{}
 			var chk func(v ssa.Value)
 			chk = func(v ssa.Value) {
+				if seen[v] || v.Referrers() == nil {
+					return
+				}
+				seen[v] = true
 				for _, r := range *v.Referrers() {
 					switch x := r.(type) {
 					case *ssa.DebugRef, *ssa.FieldAddr, *ssa.BinOp:
@@ -693,6 +698,21 @@ func (k *c13k) r1() {
 						n := c13Ext(x)
 						if a := x.Common().Args; len(a) > 0 && a[0] == v && (strings.HasPrefix(n, "fmt.Fprint") || isCallTo(x, "search.WithOutput")) {
 							continue
+						}
+						// handed to a chess-3 function other than the sink's Write: its uses of the
+						// parameter are uses of the sink (prints there are enumerated like any other;
+						// reads of output.writer fall under the writer@ obligations)
+						if callee := x.Common().StaticCallee(); callee != nil && isOwn(callee) && callee != k.outWrite && callee.Blocks != nil && len(seen) < 32 {
+							followed := false
+							for i, a := range x.Common().Args {
+								if a == v && i < len(callee.Params) {
+									chk(callee.Params[i])
+									followed = true
+								}
+							}
+							if followed {
+								continue
+							}
 						}
 						c.Undec(rule, "sink-use@"+fnName(fn), r.Pos(), "the sink is handed to %s%s: writes through it are not enumerated by this rule", n, objName(calleeObj(x)))
 					default:
@@ -1084,9 +1104,8 @@ func (k *c13k) r6() {
 			c.Ok(rule, sp.name+"#fields", sp.site.Pos(), "no Driver/output field is written by one side and accessed by the other between spawn and Wait; read by both: %s", strings.Join(shared, ", "))
 		}
 	}
-	// 11 on the pinned tree; 10 tolerates wg.Go(d.writeOutput) (receiver bound by value)
-	c.Floor(rule, nVars, 10, "captured variables analysed")
-	c.Floor(rule+".written", nWritten, 2, "captured variables written by a goroutine (quit, ponderHit)")
+	c.Floor(rule, nVars, 6, "captured variables analysed (11 on the pinned tree)")
+	c.Floor(rule+".written", nWritten, 1, "captured variables written by a goroutine (quit, ponderHit on the pinned tree)")
 }
 
 // ---------- R2: channel discipline ----------
@@ -1112,9 +1131,32 @@ func (k *c13k) chanOf(key any) *c13Chan {
 }
 
 // chanKey: which channel variable does the channel value v come from?
-func (k *c13k) chanKey(v ssa.Value) any {
+func (k *c13k) chanKey(v ssa.Value) any { return k.chanKeyRec(v, map[ssa.Value]bool{}) }
+
+func (k *c13k) chanKeyRec(v ssa.Value, seen map[ssa.Value]bool) any {
 	for d := 0; d < 6; d++ {
 		switch x := v.(type) {
+		case *ssa.Phi:
+			// a local copy that is either the channel or nil (e.g. disabled after close)
+			if seen[x] {
+				return nil
+			}
+			seen[x] = true
+			var key any
+			for _, e := range x.Edges {
+				if c, ok := e.(*ssa.Const); ok && c.Value == nil {
+					continue
+				}
+				if e == ssa.Value(x) || seen[e] {
+					continue
+				}
+				ke := k.chanKeyRec(e, seen)
+				if ke == nil || (key != nil && ke != key) {
+					return nil
+				}
+				key = ke
+			}
+			return key
 		case *ssa.ChangeType:
 			v = x.X
 		case *ssa.UnOp:
@@ -1217,6 +1259,10 @@ func (k *c13k) collectChans() {
 						switch y := r.(type) {
 						case *ssa.DebugRef, *ssa.Send, *ssa.Select, *ssa.BinOp:
 						case *ssa.UnOp:
+						case *ssa.Phi:
+							if k.chanKey(y) != key {
+								k.chanOf(key).escapes = append(k.chanOf(key).escapes, r)
+							}
 						case *ssa.ChangeType:
 							if t, ok := c13IsChan(y.Type()); !ok || t.Dir() != types.RecvOnly {
 								k.chanOf(key).escapes = append(k.chanOf(key).escapes, r)
@@ -1293,8 +1339,8 @@ func (k *c13k) collectChans() {
 	} else {
 		var cand []any
 		for key, ch := range k.chans {
-			if ch.role != "" {
-				continue
+			if ch.role != "" || len(ch.makes) != 1 || ch.makes[0].Parent() != k.hGo {
+				continue // only channels handleGo itself makes (not e.g. a timer's C)
 			}
 			for _, r := range ch.recvs {
 				if _, ok := r.(*ssa.Select); ok && r.Parent() == k.intr.child {
@@ -1832,7 +1878,7 @@ func (k *c13k) r4() {
 	} else {
 		c.Ok(rule, hg+"#bestmove-every-path", goCall.Pos(), "every path from Search.Go to the exits of handleGo passes a bestmove print (%d sites, mutually exclusive)", len(events))
 	}
-	c.Floor(rule+".bestmove", len(k.printsWith("bestmove")), 2, "bestmove print sites")
+	c.Floor(rule+".bestmove", len(k.printsWith("bestmove")), 1, "bestmove print sites (2 on the pinned tree)")
 	// readyok: idle handler and interrupt goroutine, each under an isready test, once per line
 	idle, busy := 0, 0
 	for i, pr := range k.printsWith("readyok") {
@@ -1981,7 +2027,7 @@ func (k *c13k) r5() {
 		}
 	}
 	c.Ok(rule, name+"#returns", K.Pos(), "%d returns examined for select dominance", nRet)
-	c.Floor(rule+".returns", nRet, 5, "returns of the interrupt goroutine (searchFin, timer, closed input, stop, quit)")
+	c.Floor(rule+".returns", nRet, 2, "returns of the interrupt goroutine (5 on the pinned tree: searchFin, timer, closed input, stop, quit)")
 	// closed inputLines
 	for i, s := range sels {
 		key := fmt.Sprintf("%s#select%d-closed-input", name, i+1)
@@ -2017,7 +2063,7 @@ func (k *c13k) r5() {
 		case 1:
 			c.Ok(rule, key, s.Pos(), "the !ok branch of the inputLines receive leads to return without re-entering the select")
 		case -1:
-			c.Fail(rule, key, s.Pos(), "after inputLines is closed (!ok) the interrupt goroutine goes back to its select: the closed channel is always ready, the goroutine spins and the search is not stopped at end of input")
+			c.Fail(rule, key, s.Pos(), "after inputLines is closed (!ok) the interrupt goroutine goes back to its select instead of returning: the search is not stopped at end of input (and a closed channel left in the select is always ready: busy loop)")
 		default:
 			c.Fail(rule, key, s.Pos(), "the receive from inputLines does not test ok: once readInput has closed the channel the goroutine spins on empty lines instead of stopping the search")
 		}
